@@ -19,7 +19,11 @@ RULE = ("boundary corpus (every sequence of up to 4 matching category depths 0..
         "hold every string of the title/url pools that some substitution of the package rewrites, for every choice "
         "of the simplified key among title/app/url/name/label, with/without app and title) then seeded "
         "random event lists x rule lists; non-trivial = distinct canonical case in which a rule matched / a url was "
-        "split / a title was rewritten / an exception class was compared")
+        "split / a title was rewritten / an exception class was compared; round 3: sessions of calls in one process "
+        "through the three routes direct / aw_query.functions registry / aw_query.query program (every ordered pair of "
+        "(select_keys, ignore_case) variants of one regex, one call each and both in one rule list; every pair of "
+        "transforms with the first result and its arguments edited in place in between; rule objects edited in place "
+        "between calls; two-stage programs; seeded random sessions) and 10 001-event inputs")
 
 KEYS = {"url": 1, "title": 2, "app": 3, "$category": 4, "$tags": 5, "$protocol": 6, "$domain": 7,
         "$path": 8, "$params": 9, "$options": 10, "$identifier": 11}
@@ -730,7 +734,11 @@ def main(argv=None):
     runner = c19_hist.Runner(ck, sys.modules[__name__], process)
     n_sessions = 0
     for steps in c19_hist.sessions(sys.modules[__name__], ck.rng, ck.tier):
-        runner.run_session(steps)
+        try:
+            runner.run_session(steps)
+        except Exception as ex:  # noqa: BLE001 - a tree on which a session cannot even be run: the tie is not established
+            ck.disagreement("history", f"a call session could not be run ({type(ex).__name__}: {str(ex)[:200]})",
+                            {"session": c19_hist.readable(steps)[:4]})
         n_sessions += 1
     ck.coverage["history"] = {"sessions": n_sessions, "calls": len(runner.history), "seconds": round(time.time() - t_h, 1)}
     cases = done
@@ -765,14 +773,27 @@ def main(argv=None):
                        "patterns on ASCII values; otherwise the oracle calls re itself",
                        "which cells the four transforms write (in place: categorize / tag / split_url_events; copies: "
                        "simplify_string) and which objects their results share with the arguments: theorems over the "
-                       "heap-level model (Props/C19own.v), tied by harness/theap2.py with aliasing inputs"]
+                       "heap-level model (Props/C19own.v), tied by harness/theap2.py with aliasing inputs",
+                       "round 3 (harness/c19_hist.py): every transform also through aw_query.functions.functions[...] "
+                       "(rule dicts, called as QFunction.interpret calls them) and through whole aw_query.query programs "
+                       "against a memory datastore, in sessions of calls in ONE process (rule lists that share a regex "
+                       "and differ in select_keys / ignore_case / category, the caller's rule objects edited in place "
+                       "between calls, the previous result's objects again, two stages in one program); every call is "
+                       "judged alone by the oracle and the model (both pure): dependence on history is a failing input",
+                       "round 3: after a call every container it handed out or was given is edited in place, one at a "
+                       "time; only what the heap model calls the same object may change (the event it belongs to, what "
+                       "shared it before the call, for $category the events won by the same rule: Props/C19own.v, "
+                       "Props/C19fresh.v - what the call creates is referred to by one object only), and the later calls "
+                       "of the session run with those edits in place (signature C19:aliasing; a failing session is "
+                       "re-run and minimised in fresh interpreters)",
+                       "round 3: one input of 10 001 events per transform (registry / direct route)"]
     from . import theap2           # heap-level model of the C19 transforms (Props/C19own.v), tie A with aliasing
     if "C19" in theap2.GROUPS:
         theap2.heap_check(ck, "C19", have_driver=theap2.prepare(ck, "C19"))
     return ck.finish(RULE)
 
 
-EXTRA_TARGETS = ["Bridge/BridgeClassify.v", "Props/C19own.v"]
+EXTRA_TARGETS = ["Bridge/BridgeClassify.v", "Props/C19own.v", "Props/C19fresh.v"]
 GEN_KERNELS = ["Rule.__init__", "Rule.match", "_pick_deepest_cat", "_pick_category", "_categorize_one", "_tag_one"]
 
 if __name__ == "__main__":
